@@ -82,8 +82,11 @@ def run(c):
             raise vlib.InfraError("driver printed no summary: %s" % p.stdout[-500:])
         traces += vlib.split_traces(vlib.read_ndjson(out))
     full = dict(traces)
-    rej = c.validate_traces("TextIndexTrace", "TextIndexTrace.cfg", [(n, norm(e)) for n, e in traces],
-                            chunk=c.pick(40, 25), timeout=1500)
+    rej, normed, step = [], [(n, norm(e)) for n, e in traces], c.pick(13, 10)
+    for off in range(0, len(normed), step):
+        rej += c.validate_traces("TextIndexTrace", "TextIndexTrace.cfg", normed[off:off + step], chunk=step, timeout=1500)
+        if len(rej) >= 6:      # enough to report; every further rejection costs another TLC run
+            break
     seen = set()
     for x in rej:
         ev = full[x["trace"]][x["index"]] if x["index"] >= 0 else None
